@@ -83,6 +83,28 @@ pub fn dispatch(op: &str, a: &[String]) -> Option<String> {
             }
         }
     }
+    // a FRESH adapter that has seen other documents first (same language token, different first lines; unknown
+    // tokens) must give the same bytes as the fresh adapter above gave for this input alone
+    {
+        let adapter2 = if css {
+            SyntectAdapterBuilder::new().css().build()
+        } else {
+            SyntectAdapterBuilder::new().theme("base16-ocean.dark").build()
+        };
+        let mut plugins2 = Plugins::default();
+        if syn {
+            plugins2.render.codefence_syntax_highlighter = Some(&adapter2);
+        }
+        for other in ["```myscript\n#!/bin/bash\necho 1\n```\n", "```myscript\n<?xml version=\"1.0\"?>\n<a/>\n```\n", "```x\n#!/usr/bin/env python\nprint(1)\n```\n", "```rust\nfn x() {}\n```\n"] {
+            let _ = render_all(other, &o, &plugins2);
+        }
+        let again = render_all(&md, &o, &plugins2);
+        for (i, name) in ["html", "xml", "cm"].iter().enumerate() {
+            if again[i] != first[i] {
+                return Some(format!("ok DIFF {}-fresh-adapter-after-other-documents", name));
+            }
+        }
+    }
     // 8 threads sharing the same options and plugins
     let mut diff: Option<String> = None;
     std::thread::scope(|s| {
